@@ -254,6 +254,91 @@ let () =
           let show l = String.concat " || " (Stdlib.List.map show_changes l) in
           if show got <> show want then Printf.printf "%s MODEL-REFERENCE-DIFFERS %s\n" id (show want);
           Printf.printf "%s %s\n" id (show got)
+        | "consumers" ->
+          (* <cmd I|D|A|M|C> <nflags> <hex>... (~ | E <n> <hex>...) <from schema> <to schema> *)
+          let cmd = next () in
+          let nf = next_int () in
+          let flags = times nf next_str in
+          let env = (match next () with
+            | "~" -> None
+            | "E" -> let n = next_int () in Some (times n next_str)
+            | s -> failwith ("env " ^ s)) in
+          let from = parse_schema () in
+          let to_ = parse_schema () in
+          let c = (match cmd with "I" -> CInspect | "D" -> CDiff | "A" -> CApply | "M" -> CMigrateDiff | "C" -> CClean | s -> failwith ("cmd " ^ s)) in
+          let inv = { i_cmd = c; i_flags = flags; i_env = env } in
+          let show_tab t =
+            Printf.sprintf "T(%s){c=%s;i=%s}" (hexb t.t_name)
+              (String.concat "," (Stdlib.List.map (fun c -> hexb c.c_name) t.t_cols))
+              (String.concat "," (Stdlib.List.sort compare (Stdlib.List.map (fun i -> hexb i.i_name) t.t_idx))) in
+          let show_state r =
+            "[" ^ String.concat " " (Stdlib.List.sort compare (Stdlib.List.concat_map (fun s -> Stdlib.List.map show_tab s.s_tables) r)) ^ "]" in
+          let atoms = function
+            | None -> "differr"
+            | Some cs ->
+              let a = Stdlib.List.concat_map (function
+                | AddTable n -> ["+T(" ^ hexb n ^ ")"]
+                | DropTable n -> ["-T(" ^ hexb n ^ ")"]
+                | ModifyTable (n, l) -> Stdlib.List.map (fun ch ->
+                    let q k x = k ^ "(" ^ hexb n ^ "." ^ hexb x ^ ")" in
+                    match ch with
+                    | AddColumn x -> q "+C" x | DropColumn x -> q "-C" x | ModifyColumn (x, _) -> q "~C" x
+                    | AddIndex x -> q "+I" x | DropIndex x -> q "-I" x | ModifyIndex (x, _) -> q "~I" x
+                    | _ -> "?(" ^ hexb n ^ ")") l) cs in
+              if a = [] then "-" else String.concat "," (Stdlib.List.sort compare a) in
+          (match command_diff inv [from] [to_] with
+           | EErr _ -> Printf.printf "%s err\n" id
+           | EOk ((f, t), d) ->
+             (match cmd with
+              | "I" -> Printf.printf "%s ok from=%s\n" id (show_state f)
+              | "D" -> Printf.printf "%s ok from=%s to=%s ch=%s\n" id (show_state f) (show_state t) (atoms d)
+              | _ -> Printf.printf "%s ok ch=%s\n" id (atoms d)))
+        | "excludex" ->
+          (* <op R|S<k>> <li> <lf> <npats> <hex>... <xrealm> *)
+          let op = next () in
+          let li = next_bool () in
+          let lf = next_bool () in
+          let np = next_int () in
+          let pats = times np next_str in
+          let strs () = let n = next_int () in times n next_str in
+          let objs () = let n = next_int () in times n (fun () ->
+            match next () with
+            | "~" -> let i = next_int () in { o_spec = None; o_id = n_of_int i }
+            | "N" -> let t = next_str () in let nm = next_str () in let i = next_int () in { o_spec = Some (t, nm); o_id = n_of_int i }
+            | s -> failwith ("obj " ^ s)) in
+          let robjs = objs () in
+          let ns = next_int () in
+          let schemas = times ns (fun () ->
+            let name = next_str () in
+            let nt = next_int () in
+            let tabs = times nt (fun () -> let t = parse_table () in let g = strs () in { xt_t = t; xt_trigs = g }) in
+            let nv = next_int () in
+            let views = times nv (fun () -> let n = next_str () in let c = strs () in let g = strs () in { v_name = n; v_cols = c; v_trigs = g }) in
+            let funcs = strs () in
+            let procs = strs () in
+            let o = objs () in
+            { xs_name = name; xs_tables = tabs; xs_views = views; xs_funcs = funcs; xs_procs = procs; xs_objects = o }) in
+          let r = { xr_objects = robjs; xr_schemas = schemas } in
+          let res =
+            if op = "R" then excludeRealmX (li, lf) r pats
+            else
+              let k = int_of_string (String.sub op 1 (String.length op - 1)) in
+              excludeSchemaX (li, lf) r (Stdlib.List.nth schemas k) pats in
+          let h l = String.concat "," (Stdlib.List.map hexb l) in
+          let show_objs l = String.concat "," (Stdlib.List.map (fun o ->
+            match o.o_spec with
+            | Some (t, n) -> Printf.sprintf "%s:%s#%d" (hexb t) (hexb n) (int_of_n o.o_id)
+            | None -> Printf.sprintf "~#%d" (int_of_n o.o_id)) l) in
+          (match res with
+           | EErr e -> Printf.printf "%s err=%s\n" id (show_err e)
+           | EOk r' ->
+             let ss = Stdlib.List.map (fun s ->
+               Printf.sprintf "S(%s)[%s|g=%s|%s|F=%s|P=%s|O=%s]" (hexb s.xs_name)
+                 (String.concat " " (Stdlib.List.map (fun t -> show_table t.xt_t) s.xs_tables))
+                 (String.concat ";" (Stdlib.List.map (fun t -> hexb t.xt_t.t_name ^ ":" ^ h t.xt_trigs) s.xs_tables))
+                 (String.concat " " (Stdlib.List.map (fun v -> Printf.sprintf "V(%s){c=%s;g=%s}" (hexb v.v_name) (h v.v_cols) (h v.v_trigs)) s.xs_views))
+                 (h s.xs_funcs) (h s.xs_procs) (show_objs s.xs_objects)) r'.xr_schemas in
+             Printf.printf "%s ok O=%s %s\n" id (show_objs r'.xr_objects) (String.concat " " ss))
         | m -> failwith ("mode " ^ m)
       end
     done
